@@ -450,3 +450,71 @@ func Harness_C05_purge() {
 	}
 	verifReach("done")
 }
+
+// Update with a callback that is shown the current body and answers in one of
+// four ways (new body / delete / cancel / error).
+func stepUpdate(mask int) {
+	k := kvBegin(mask)
+	exp := verifU32("exp")
+	newBody := verifBytes("new")
+	verifAssume(newBody != nil)
+	mode := verifChoose("cb", 4)
+	var shown []byte
+	calls := 0
+	cbErr := errors.New("callback refused")
+	casOut, err := k.c.Update(k.key, exp, func(cur []byte) ([]byte, *uint32, bool, error) {
+		shown = cur
+		calls++
+		switch mode {
+		case 0:
+			return newBody, nil, false, nil
+		case 1:
+			return nil, nil, true, nil
+		case 2:
+			return nil, nil, false, nil
+		}
+		return nil, nil, false, cbErr
+	})
+	post := k.post()
+	if k.want(pC01) {
+		verifAssert(calls >= 1, "the callback is invoked")
+		verifAssert(verifOr(verifAnd(k.pre.hasBody(), verifBytesEq(shown, k.pre.Value)), verifAnd(!k.pre.hasBody(), shown == nil)), "the callback is shown the current body (nil if there is none)")
+	}
+	switch mode {
+	case 2:
+		verifReach("cancelled")
+		verifAssert(verifAnd(err == nil, casOut == 0, verifSameDB(k.env.db, k.snap)), "a cancelled Update changes nothing")
+		return
+	case 3:
+		verifReach("callback-error")
+		verifAssert(verifAnd(err == cbErr, verifSameDB(k.env.db, k.snap)), "an Update whose callback fails returns that error and changes nothing")
+		return
+	}
+	if err != nil {
+		k.failed("refused")
+		if k.want(pC01) && mode == 0 {
+			var tooBig sgbucket.DocTooBigErr
+			verifAssert(errors.As(err, &tooBig), "an Update that writes a body succeeds (unless the body is too big)")
+		}
+		return
+	}
+	if k.want(pC01) {
+		verifAssert(casOut == uint64(post.Cas), "returned CAS is the stored CAS")
+	}
+	k.mutated(post, true)
+	if mode == 0 {
+		verifReach("updated")
+		k.liveWith(post, newBody, true, exp, false)
+	} else {
+		verifReach("deleted")
+		if k.want(pC01 | pC05) {
+			verifAssert(k.pre.Present, "Update(delete) is applied only to an existing document")
+		}
+		k.tombstoned(post)
+	}
+}
+
+func Harness_C01_update() { stepUpdate(pC01) }
+func Harness_C05_update() { stepUpdate(pC05) }
+func Harness_C17_update() { stepUpdate(pC17) }
+func Harness_C08_update() { stepUpdate(pC08) }
